@@ -653,6 +653,9 @@ func runC03(r *Run) {
 	r.Floor("R8", "StateDB.SetNonce call sites in keeper code", nSet, 2)
 	c03MessageList(r)
 	c03ChainRunsThrough(r)
+	r.Rule("R13", "see C06 R7 (imported): the ante router returns success only through one of its three route chains — a fast path in the router (genesis transactions 'validated when the genesis file was assembled') executes transactions whose signature nobody checked")
+	r.Import("R13/C06.", []string{"R7"}, runC06)
+	checkParamsRewrites(r, "R14")
 }
 
 // c03ChainRunsThrough (C03 R12): no decorator ends its chain with success.
@@ -929,4 +932,60 @@ func requireGuardFrom(r *Run, rule, inst string, fn *ssa.Function, starts []*ssa
 	}
 	r.OK(rule, inst, where, okMsg)
 	return true
+}
+
+// checkParamsRewrites (C03 R14): a module's parameter set rebuilt field by field keeps every field's namesake.
+func checkParamsRewrites(r *Run, rule string) {
+	P := r.P
+	r.Rule(rule, "TABLE.parameter-rewrites-keep-their-namesakes: whether a signature without a chain id is accepted (AllowUnprotectedTxs), which denomination the EVM mints, which precompiles are active — are fields of stored parameter sets, and upgrade handlers and store migrations rewrite those sets. Wherever non-test Haqq code stores into field F of a struct named Params a value read from another value of the same Params type, it is read from that value's field F: a rebuilt set with one copy-paste slip (AllowUnprotectedTxs: stored.EnableCall) passes validation, keeps every test green and silently switches replay protection off at the upgrade height")
+	n := 0
+	for _, fn := range P.Funcs {
+		if isTestSupport(P, fn) || fn.Synthetic != "" || !isHaqqPath(fnPkgPath(fn)) || strings.Contains(fnPkgPath(fn), "/testutil") || isGeneratedFile(P.FileOf(fnPos(outermost(fn)))) {
+			continue
+		}
+		seen := map[string]int{}
+		eachInstr(fn, func(in ssa.Instruction) {
+			st, ok := in.(*ssa.Store)
+			if !ok {
+				return
+			}
+			fa, ok := st.Addr.(*ssa.FieldAddr)
+			if !ok {
+				return
+			}
+			sn, f, ok := fieldOfAddr(st.Addr)
+			if !ok || sn != "Params" {
+				return
+			}
+			pt := deref(fa.X.Type())
+			same, namesake := false, false
+			backSlice(st.Val).Any(func(v ssa.Value) bool {
+				switch x := v.(type) {
+				case *ssa.FieldAddr:
+					if types.Identical(deref(x.X.Type()), pt) && stripValue(x.X) != stripValue(fa.X) {
+						same = true
+						if _, ff, ok := fieldOfAddr(x); ok && ff == f {
+							namesake = true
+						}
+					}
+				case *ssa.Field:
+					if types.Identical(x.X.Type(), pt) {
+						same = true
+						if _, ff, ok := fieldOfValue(x); ok && ff == f {
+							namesake = true
+						}
+					}
+				}
+				return false
+			})
+			if !same {
+				return
+			}
+			n++
+			seen[f]++
+			r.Check(namesake, rule, fmt.Sprintf("%s#Params.%s-%d-from-its-namesake", fnID(fn), f, seen[f]), P.Pos(instrPos(in)), "copied from the same field of the source parameter set",
+				"a parameter set is rebuilt with field "+f+" taken from another field of the stored set: the rewritten parameters differ from the stored ones in a field the rewrite was not meant to touch")
+		})
+	}
+	r.Count(rule+" parameter fields copied between sets of the same type", n)
 }
